@@ -218,7 +218,7 @@ def corpus():
 
 def gen(tier, seed):
     rng = Rng(seed * 29 + 12)
-    n = 400 if tier == "quick" else 8000
+    n = 1500 if tier == "quick" else 8000
     cases = corpus()
     for i in range(n):
         g = ApiGen(rng, rng.choice([4096, 4097, 8192, 131072, 0]))
